@@ -167,30 +167,31 @@ Definition custom_anomalies (c : config) (n0 : N) (os : list op) (evs : list (li
                          end
                      | _ => [] end) (concat evs).
 
-(* ---- round robin: a run of n consecutive dispatch ops, each started at once, on a pool of n
-   that was idle and never resized or disturbed, lands on n distinct workers *)
-Fixpoint take_starts (n : nat) (os : list op) (evs : list (list event)) : option (list N) :=
+(* ---- round robin: when a scenario opens with n dispatch ops on its idle initial pool of n
+   workers and none of them is discarded (ttl, load shedding, rate limit), the n jobs are
+   spread over all n workers, i.e. each starts at once, on n distinct workers *)
+Fixpoint first_dispatches (n : nat) (os : list op) (evs : list (list event)) : option (list event) :=
   match n with
   | O => Some []
   | S n' =>
       match os, evs with
-      | ODispatch id _ _ _ :: os', es :: evs' =>
-          match flat_map (fun e => match e with EStart j w _ => if j =? id then [w] else [] | _ => [] end) es with
-          | [w] => match take_starts n' os' evs' with Some l => Some (w :: l) | None => None end
-          | _ => None
-          end
+      | ODispatch _ _ _ _ :: os', es :: evs' =>
+          match first_dispatches n' os' evs' with Some l => Some (es ++ l) | None => None end
       | _, _ => None
       end
   end.
 
 Definition nodupb (l : list N) : bool := Nat.eqb (length (dedup l)) (length l).
 
-(* only the initial run is judged: before any other op the pool is idle and has its initial size *)
 Definition spread_anomalies (r : router) (n0 : N) (os : list op) (evs : list (list event)) : list anomaly :=
   match r with
   | RRoundRobin =>
-      match take_starts (N.to_nat n0) os evs with
-      | Some ws => if nodupb ws then [] else [ASpread 0]
+      match first_dispatches (N.to_nat n0) os evs with
+      | Some es =>
+          if existsb (fun e => match e with EDisc _ _ | ERet _ => true | _ => false end) es then []
+          else
+            let ws := flat_map (fun e => match e with EStart _ w _ => [w] | _ => [] end) es in
+            if nodupb ws && Nat.eqb (length ws) (N.to_nat n0) then [] else [ASpread 0]
       | None => []
       end
   | _ => []
